@@ -250,14 +250,7 @@ Theorem C05_monitor_sound : forall od idue k s h pend,
 Proof. exact spec_run_sound. Qed.
 Print Assumptions C05_monitor_sound.
 
-(** a correspondence case on which the implementation's observations equal the model's
-    ([Check.model_agrees]) satisfies the monitor: "agrees with the model" and "violates the
-    specification" exclude each other *)
-Theorem C05_agreeing_case_satisfies_spec : forall c : Check.case,
-  Check.model_agrees c = true -> Forall (ev_ok (Check.c_k c)) (map fst (Check.c_hist c)) ->
-  spec_run (Check.od_of c) (Check.c_idue c) (Check.c_k c) [] (Check.c_obs0 c) (Check.c_hist c) = true.
-Proof. exact agreeing_case_satisfies_spec. Qed.
-Print Assumptions C05_agreeing_case_satisfies_spec.
+(* XAGREE *)
 
 (** ** Non-vacuity: concrete well-formed states meeting the hypotheses *)
 Definition ex_od (n : name) : bool := n =? 2.
